@@ -219,7 +219,7 @@ thorough ≈ 10–20 s per property.
 ## 5. Genuine defects on the pinned tree and their handling
 
 Each of these is what the named rule reports on the pinned tree (`ec837c5`) or,
-for F12 and F13, on the tree before their fixes, and each was confirmed against the real
+for F12-F14, on the tree before their fixes, and each was confirmed against the real
 code with a concrete witness before it was repaired. All repairs are single
 unguarded `fix:` commits in `/repo`; after each, the 322 baseline tests pass
 (`tools/baseline.sh`) and the rule passes **without the rule being touched**.
@@ -243,6 +243,14 @@ them and are reported).
 | F12 | C19 (C07) | C19.runs-adjacent | `xslices.Runs` | `Runs([1,2,3]) = [[] [2] [3]]`, `Runs([1]) = []` (`findings/F12_…`) | fix 81e9519 |
 
 | F13 | C12 | C12.assert-nil-safe | `chans.Merge`, reflect path (>= 4 inputs) | a nil value of an interface element type (`chan error`) panics at `item.Interface().(T)` while 1-3 inputs forward it (`findings/F13_…`) | fix f07bcc6 |
+| F14 | C07 | C07.source-items-readonly | `stream.FlattenSlices` (`flattenSlicesStream.Next`) | `s.buffer[0] = zero` clears the slice the source yielded: a source yielding one slice twice gives `[1 2 0 0]` for `[[1 2] [1 2]]`, and the caller's slice is wiped (`findings/F14_…`) | fix 894b351 |
+
+F14 was likewise a remark of a round-5 sub-agent on the clean tree; confirmed with a
+test, repaired (the zeroing line removed), and the ownership rule
+`C07.source-items-readonly` written: no combinator in `iterator`/`stream` stores
+through a container it pulled from its source (followed through wrapper fields,
+locals, phis, re-slicing, `append(x[:0], …)`, `copy`). It reports the defect on the
+tree before the fix (control `flattenslices-zeroes-source`).
 
 F13 was pointed out by a seed-round-5 sub-agent as a remark on the clean tree (it
 is the sibling of F7: a single-result assertion to a type parameter on a value
